@@ -246,13 +246,14 @@ func (z *Ser) write(b *strings.Builder, n Node) {
 // *Stmt node the same *jen.Statement.
 type Builder struct {
 	stmts  map[*Stmt]*jen.Statement
+	groups map[*Group]*jen.Group // a *Group node met again is added as the SAME *jen.Group (s.Add(g))
 	// StmtHook, when set, builds statements instead of the default chained-method build (the
 	// C14 form-choosing builder of forms.go plugs in here and does its own memoising).
 	StmtHook func(st *Stmt) *jen.Statement
 }
 
 func NewBuilder() *Builder {
-	return &Builder{stmts: map[*Stmt]*jen.Statement{}}
+	return &Builder{stmts: map[*Stmt]*jen.Statement{}, groups: map[*Group]*jen.Group{}}
 }
 
 // Code builds the jen.Code standing for a node used as an item of a group, a Dict
@@ -365,6 +366,19 @@ func (bd *Builder) Append(s *jen.Statement, it Node) {
 			panic("term: bad token kind " + x.Kind)
 		}
 	case *Group:
+		if g, ok := bd.groups[x]; ok {
+			// the very same node again: the same pointer again (the serialisation gives both
+			// occurrences one identity, and Statement.previous looks for the pointer)
+			s.Add(g)
+			break
+		}
+		defer func() {
+			if n := len(*s); n > 0 {
+				if g, ok := (*s)[n-1].(*jen.Group); ok && g != nil {
+					bd.groups[x] = g
+				}
+			}
+		}()
 		switch x.Method {
 		case "Qual":
 			s.Qual(x.Path, x.Name)
